@@ -62,7 +62,7 @@ class C06(Check):
         design_ref="DESIGN.md §5 C06, §4 M7",
         note="modelled, not verified: IEEE rounding (Rat model, 1e-9 relative comparison), numpy.interp (transliterated with its clamping, "
         "checked on every observed call), the hydraulic solve (link flows and leak_demand are whatever the real solver reported; the leak law itself is C08's)",
-        technique="Lean 4 proof over hand-written model + differential run (in-process wrapping) + Lean-evaluated oracles on real results",
+        technique="Lean 4 proof over hand-written model + ast translator (Gen/TankShape.lean: update_tank_heads, _interp_extrapolate, Tank.get_volume, backtrack block of TankLevelCondition.evaluate, _run_postsolve_controls, _internal_status writers; Lemmas/TankShape.lean: the interpreted skeletons ARE the model) + differential run (in-process wrapping) + Lean-evaluated oracles on real results",
     )
     rule = (
         "obligations: theorems of Props/C06.lean. correspondence cases: observed update_tank_heads / TankLevelCondition.evaluate calls "
